@@ -153,7 +153,7 @@ def main():
             {"name": "crashx", "path": "harness/src/crashx.rs", "serves_properties": ["C01", "C07", "C11", "C13"], "kind_free_text": "crash-point / lost-write / torn-write enumerator over recorded storage logs"},
             {"name": "faultx", "path": "harness/src/faultx.rs", "serves_properties": ["C08", "C05"], "kind_free_text": "backend-call fault index enumerator"},
             {"name": "contractx", "path": "harness/src/contractx.rs", "serves_properties": ["C20"], "kind_free_text": "backend contract monitor + failing-open enumerations"},
-            {"name": "schedx", "path": "harness/src/schedx.rs", "serves_properties": ["C03", "C16"], "kind_free_text": "controlled scheduler, preemption-bounded DFS over schedules of the real code (worker processes)"},
+            {"name": "schedx", "path": "harness/src/schedx.rs", "serves_properties": ["C03", "C16", "C13"], "kind_free_text": "controlled scheduler, preemption-bounded DFS over schedules of the real code (worker processes)"},
             {"name": "corruptx", "path": "harness/x/corruptx/src/corruptx.rs", "serves_properties": ["C12"], "kind_free_text": "alteration enumerator over closed images"},
             {"name": "allocx", "path": "harness/x/allocx/src/allocx.rs", "serves_properties": ["C14"], "kind_free_text": "explicit-state search of the allocator"},
             {"name": "typex", "path": "harness/x/typex/src/typex.rs", "serves_properties": ["C15"], "kind_free_text": "closed-domain enumeration of key encodings"},
